@@ -1,5 +1,24 @@
 chk('C16', 'exploration',
-    'bounded-exhaustive enumeration of FBG designs on the real implementation: deviation lattice (every design differing from the baseline in <= 2 (quick) / <= 3 (thorough) of 10 axes: sampling rate 20/100/400 GS/s, input length 2^8/2^10/2^12/257/1001, 1 or 2 polarisations, input field, filtfilt, kL 0.1..8, vdneff 1e-5..1e-3, chirp F 0/+-5/+-20, 11 apodisations (4 built-in names, their 4 callable twins, 2 seeded smooth positive callables, 1 asymmetric tilt), 6 specification routes {fc,landa_D}x{kL,L,N}) = 587 / 5303 designs, plus the 16 corners of (fs,n,vdneff,kL), plus (thorough) the full product kL x vdneff x apodisation x F (990 designs), plus all 2^7 presence/absence patterns of {landa_D,fc,kL,L,N,dneff,vdneff}; every design is checked at EVERY frequency bin against closed forms computed from the design numbers (tanh^2(kL int p) with scipy.quad of a reference profile, sinh^2 g/(cosh^2 g - d^2/k^2)), against its name/callable twin and against the equivalent specification route, and the returned field against ifft(fft(in)*ifftshift(H)) per polarisation',
-    'holds for the enumerated alphabets only (bounded, not a proof over the continuous parameter ranges); tolerances are multiples of the RK45 rtol=1e-3 the implementation uses (|H|<=1+5e-3, peak 2e-3, uniform spectrum 1e-2; measured worst 0 / 4e-4 / 5e-3); same-H relations to 1e-9 (measured <= 2e-13); undocumented-but-determined specifications (e.g. fc+kL+L, over-specified mixes) may either compute or raise ValueError; the sign of the chirp is not constrained by the statement (|H| is invariant under F -> -F for symmetric profiles) - a non-deciding diagnostic against the documented coupled-mode ODE records the deviation only; dneff-designed gratings are only checked for passivity/filtering/energy',
-    'deviation-lattice + full-product bounded-exhaustive exploration with closed-form, differential (name vs callable, route vs route) and presence-pattern oracles on 16 workers',
+    'bounded-exhaustive enumeration of FBG designs on the real implementation. lattice: every design differing from the baseline in <= 2 of 18 axes = 4 396 designs (both '
+    'tiers): sampling rate (4, incl. 33.3 GS/s), input length (10: 2^8..2^12, odd, prime, non-smooth), layout (10: 1/2 polarisations, zero second row, n_pol=2, 5 noise forms), '
+    'input field (18: content, 12 sample dtypes, scales 1e-12..1e6, DC offset), filtfilt, call form (retH / no retH / print / positional), kL (6, 0.1..8), kL as whole '
+    'periods | exact, vdneff (3), chirp F (7, 0..+-20), apodisation (20: built-in names, callable twins in 5 callable forms, seeded smooth positive callables, profiles not '
+    'even in z), 6 specification routes {fc,landa_D}x{kL,L,N}, scalar type of the design numbers (6), gv history (8), offset of the Bragg frequency from gv.f0 (3), neff (3), '
+    'fringe visibility v (2), design through vdneff | dneff. thorough adds lattice3 (exactly 3 deviations over the 10 first-release axes and neff, 5 266) and the full product '
+    'kL x vdneff x apodisation x F (2 520). index: neff {1.45,1,2.2,3.4} x v {1,0.5,0.1} x 14 ways of specifying the grating x 2 (thorough 3) profiles (336 / 2 016). limits: '
+    'kL, vdneff, F at the documented limits and one ulp inside, exact numbers, x 4 (6) apodisations x 2 (3) rates (640 / 1 440). corners: the 16 corners of (fs,n,vdneff,kL) '
+    '(32 / 80). seq: every ordered pair (a,b) of 17 calls run in one process as b,a,b\' on shared input objects, gv reconfigured in between (272 x 3 calls): H(b\')==H(b). spec: '
+    'all 2^7 presence/absence patterns of {landa_D,fc,kL,L,N,dneff,vdneff} x 3 (6) value sets. Every design is checked at EVERY frequency bin against closed forms computed '
+    'from the design numbers and ITS neff (tanh^2(kL int p) with scipy.quad of a reference profile, sinh^2 g/(cosh^2 g - d^2/k^2)), |H|<=1, against its name/callable twin and '
+    'the (fc,kL) route (1e-9), and the returned field against ifft(fft(in)*ifftshift(H)) per polarisation, energy not increased. Kernel call-history part: 3 FBG calls x 3 '
+    'grids vs a fresh interpreter. quick 6 125 evaluations / 11 700 FBG calls, thorough 16 823',
+    'holds for the enumerated alphabets only (bounded, not a proof over the continuous parameter ranges; <= 2 deviations, neff/v crossed with all routes only at n = 256); '
+    'tolerances are multiples of the RK45 rtol=1e-3 the implementation uses (|H|<=1+5e-3, peak 2e-3, uniform spectrum 1e-2; measured worst 0 / 4e-4 / 5e-3); '
+    'same-H relations to 1e-9; determined-but-unlisted specifications may either compute or raise ValueError; the sign of the chirp '
+    'is not constrained (a non-deciding diagnostic against the documented coupled-mode ODE only records the deviation); dneff designs: uniform closed form with '
+    'd = delta + sigma, apodised ones only passivity / filtering / energy / equivalence; what becomes of input noise is not asserted, the energy clause is skipped for noisy '
+    'inputs; lengths outside 2^8..2^12, one ulp outside the limits, kL/N/L = 0 are outside; rcos is read as 1/2(1+cos 2 pi z); numpy.fft and scipy.quad are trusted; the '
+    'random input fields and two apodisation members are seeded (VERIF_SEED picks content only)',
+    'deviation-lattice + full-product bounded-exhaustive exploration with closed-form, differential (name vs callable, route vs route, call vs repeated call in a sequence) '
+    'and presence-pattern oracles on 16 workers; fresh-interpreter differential oracle for the kernel call-history part',
     'DESIGN.md 5/C16')
